@@ -8,15 +8,53 @@ from harness.core import Outcome, f2b, b2f
 
 ID = "C01"
 LEAN_TARGETS = ["BeyondVerif.Props.C01", "BeyondVerif.Witness.C01"]
-THEOREMS = []
-LEVEL_TEXT = ""
-LEVEL_NOTE = ""
+THEOREMS = ["BeyondVerif.C01." + t for t in (
+    "cart_cyl_cart cyl_cart_cyl cart_sph_cart sph_cart_sph kepl_circ_kepl circ_kepl_circ mean_mcirc_mean mcirc_mean_mcirc "
+    "mean_tle_mean tle_mean_tle kepl_equi_kepl equi_kepl_equi kepl_ecc_kepl_elliptic ecc_kepl_ecc_elliptic "
+    "kepl_ecc_kepl_hyperbolic ecc_kepl_ecc_hyperbolic m2eLoop_exit m2e_residual_elliptic mean_ecc_mean_elliptic "
+    "ecc_mean_ecc_elliptic m2e_residual_hyperbolic_partial keplToCart_respects_angEq keplToCirc_respects_angEq "
+    "edge_methods_are_links forms_walk_unique infos_fpa_components_unit infos_fpa_tan infos_visviva_energy infos_period "
+    "infos_apsides infos_hyperbolic").split()] + [
+    "BeyondVerif.C01W.m2e_start_overflows", "BeyondVerif.C01W.mean_circular_shifts_hyperbolic_M"]
+LEVEL_TEXT = ("Lean theorems over R about the 17 edge functions, the M2E start/update/exit test and the Infos formulas translated from forms.py / "
+              "statevector.py on every run (py2lean): round trips of 8 of the 9 links in both directions (cyl, sph, circular, mean-circular, TLE, "
+              "equinoctial, true<->eccentric/hyperbolic anomaly) for all inputs in the stated domains, angles as points of the circle and exact inside "
+              "one turn; Kepler-equation residual and eccentric<->mean round trip within 2 tol (1+e)/(1-e) for every fuel and start branch; "
+              "keplerian->cartesian invariant under the circle relation; routing = unique tree walk (C20 on the regenerated graph); Infos relations "
+              "(fpa components unit, vis-viva/energy, period, apsides, hyperbolic). Differential correspondence of every edge, M2E, Infos and "
+              "StateVector.copy along the routed walk against the compiled Lean model.")
+LEVEL_NOTE = ("proof (partial): the keplerian<->cartesian round trip itself and the hyperbolic residual at the returned value are NOT proved "
+              "(oracle + correspondence only); R -> double gap covered by tolerance-bounded correspondence; two open findings (hyperbolic M2E "
+              "overflow, mean-circular form wraps a hyperbolic M); Lean kernel + propext/Classical.choice/Quot.sound; py2lean translator trusted")
 TECHNIQUE = "Lean 4 proof over edge formulas translated from the Python AST (py2lean) on every run; differential correspondence per edge; API oracle"
-TRUSTED = []
-ASSUMPTIONS = []
-NOT_COVERED = []
-OPEN = []
-RULE = ""
+TRUSTED = [
+    "harness/py2lean.py translate_function/translate_expr: Python AST of the 17 `_a_to_b` methods, M2E pieces and 13 Infos properties -> Generated/Forms{F,R}.lean on every run",
+    "harness/props/C01.py m2e_pieces: checks that the M2E loop and the mean->eccentric edge still have exactly the modelled shape (AST equality), else the run is reported broken",
+    "lean/templates/Forms.tpl: hand-written fuel loop, 6-list plumbing, name dispatch (tied by the correspondence run)",
+    "atan2 y x := Complex.arg (x + iy), Python % := x - m floor(x/m), np.linalg.norm := sqrt of the sum of squares (NumReal.lean / py2lean)",
+    "numpy / libm double arithmetic vs R: correspondence tolerance 1e-9 relative (scaled by the conditioning of arctanh near 1 for hyperbolic anomalies)",
+]
+ASSUMPTIONS = [
+    "theorems are over R; the implementation computes in IEEE doubles",
+    "domains: off the z axis for spherical/cylindrical; e > 0 (circular forms, equinoctial), 0 < i < pi (equinoctial), 0 <= e < 1 or e > 1 with 1 + e cos(nu) > 0 (anomalies), a > 0 (TLE)",
+    "angles are compared as points of the circle (same cos and sin); equality of numbers is proved inside the turn the code itself returns",
+]
+NOT_COVERED = [
+    "keplerian <-> cartesian round trip (position and velocity) as a theorem: only invariance under the circle relation is proved; the round trip is checked by the oracle on the real API and the edge by correspondence",
+    "definition-truth of cartesian->keplerian (a from energy, e = |eccentricity vector|, node, perigee) is checked by the oracle against an independent numpy computation, not proved",
+    "spherical rates as time derivatives (HasDerivAt) not proved; oracle uses central differences",
+    "conditioning near e->0, i->0, e->1 (excluded by the quantifier); rounding",
+]
+OPEN = [
+    "kepl_cart round trip (kepl_cart_kepl / cart_kepl_cart) not proved",
+    "hyperbolic Kepler residual at the returned value (m2e_residual_hyperbolic_partial bounds it at the last iterate only); hyperbolic eccentric<->mean round trip",
+    "walk_roundtrip as a single induction over the routed path (the per-link theorems and the uniqueness of the walk are proved separately)",
+]
+RULE = ("correspondence: 2500 (quick) / 40000 (thorough) orbits, alternating ellipse/hyperbola, e in [1e-4,0.99] u [1.001,20], i in [0.01,pi-0.01], "
+        "any node/perigee, anomalies incl. M<0, M>2pi, |H|<=8, three bodies; every one of the 18 edge methods on each orbit, StateVector.copy along the "
+        "routed walk for a random pair, Form.M2E on all start branches, 13 Infos values; rtol 1e-9, angles mod 2pi; non-trivial = every case; "
+        "distinct = distinct request line. oracle: mean->cartesian vs an independent perifocal construction, 9 forms x 6 numbers vs textbook "
+        "definitions computed with numpy, 10x10 round trips (1e-6 r, 1e-6 v), Infos relations, Kepler residual of Form.M2E")
 
 FORMS_PY = os.path.join(core.REPO, "beyond", "orbits", "forms.py")
 SV_PY = os.path.join(core.REPO, "beyond", "orbits", "statevector.py")
@@ -214,6 +252,116 @@ def expected_form(form, d, hyper):
     return ks
 
 
+def orbit_checks(out, fr, k, hyper, a, e, i, Om, om, M, EH):
+    """all oracle predicates for one orbit given by mean elements (shared by the sweep and by replay)"""
+    import numpy as np
+    from beyond.orbits import StateVector
+    from beyond.dates import Date
+    date = Date(2020, 1, 1)
+    mu = fr.center.body.mu
+    nu = nu_from_anomaly(hyper, e, EH)
+    truth = truth_cartesian(mu, a, e, i, Om, om, nu)
+    rs, vs = np.linalg.norm(truth[:3]), np.linalg.norm(truth[3:])
+    inp = {"body": fr.center.body.name, "a": a, "e": e, "i": i, "Omega": Om, "omega": om, "M": M, "E_or_H": EH}
+    conic = "hyp" if hyper else "ell"
+    # 0. the mean-anomaly state, converted to cartesian by the code, is the independently constructed state
+    s0 = StateVector([a, e, i, Om, om, M], date, "keplerian_mean", fr)
+    with np.errstate(all="ignore"):
+        c0 = arr(s0.copy(form="cartesian"))
+    out.count(key=("m2cart", k, a, e, M), kind="mean->cartesian-vs-textbook", conic=conic, m2e=branch(e, M))
+    if not np.all(np.isfinite(c0)):
+        fam = "m2e-hyperbolic-start-overflow" if (hyper and abs(start_value(e, M)) > 709.0) else f"non-finite-mean-to-cartesian-{conic}"
+        out.fail(fam, "keplerian_mean -> cartesian returns a non-finite state inside the property's domain (M2E start value overflows sinh/cosh)",
+                 inp, observed=[float(x) for x in c0], expected=[float(x) for x in truth], start_value=start_value(e, M) if hyper else None)
+        # continue from the true-anomaly state so that the remaining checks still run on this orbit
+        s0 = StateVector([a, e, i, Om, om, nu], date, "keplerian", fr)
+        c0 = arr(s0.copy(form="cartesian"))
+    if not (np.linalg.norm(c0[:3] - truth[:3]) <= 1e-6 * rs and np.linalg.norm(c0[3:] - truth[3:]) <= 1e-6 * vs):
+        out.fail(f"mean-to-cartesian-{conic}-{branch(e, M)}", "keplerian_mean -> cartesian differs from the textbook perifocal construction",
+                 inp, observed=[float(x) for x in c0], expected=[float(x) for x in truth])
+        return
+    cart = StateVector(truth, date, "cartesian", fr)
+    # 1. definition truth: every form's six numbers from the cartesian state
+    d = textbook(mu, truth)
+    d["z"], d["vz"] = truth[2], truth[5]
+    for form in FORMS[1:]:
+        if not defined_for(form, hyper):
+            continue
+        with np.errstate(all="ignore"):
+            got = arr(cart.copy(form=form))
+        ks = expected_form(form, d, hyper)
+        out.count(key=("def", form, k, a, e, nu), kind="definition-" + form, conic=conic)
+        for idx, kname in enumerate(ks):
+            exp = d[kname]
+            g = float(got[idx])
+            base = kname.split("_")[0]
+            if kname in ANG:
+                if kname in ("E", "M") and hyper:
+                    ok = abs(g - exp) <= 1e-6 * max(1.0, abs(exp))
+                else:
+                    ok = angdiff(g, exp) <= 2e-6 / (e if kname in ("ω", "ν", "E", "M") and e < 1e-2 else 1.0) / (math.sin(i) if kname in ("Ω", "ω", "u", "α") and math.sin(i) < 0.1 else 1.0)
+            elif kname.endswith("_dot"):
+                sc = {"r_dot": vs, "rho_dot": vs, "θ_dot": vs / d["rho"], "φ_dot": vs / d["rho"]}[kname]
+                ok = abs(g - exp) <= 2e-5 * sc
+            else:
+                sc = {"a": abs(a), "r": rs, "rho": rs, "z": rs, "vz": vs, "n": d.get("n", 1.0)}.get(kname, 1.0)
+                ok = abs(g - exp) <= 1e-6 * sc * (1.0 / math.sin(i) if kname in ("ix", "iy") else 1.0) * (1 + abs(exp) if kname in ("ix", "iy") else 1.0)
+            if not (ok and math.isfinite(g)):
+                out.fail(f"definition-{form}-{kname}-{conic}", f"{form}[{idx}] is not the textbook value of {kname} computed from the cartesian state",
+                         dict(inp, cartesian=[float(x) for x in truth]), observed=g, expected=float(exp))
+    # 2. round trips over all ordered pairs
+    for src in FORMS:
+        if not defined_for(src, hyper):
+            continue
+        with np.errstate(all="ignore"):
+            sx = cart.copy(form=src)
+        for dst in FORMS:
+            if dst == src or not defined_for(dst, hyper):
+                continue
+            with np.errstate(all="ignore"):
+                back = sx.copy(form=dst).copy(form=src)
+                cb = arr(back.copy(form="cartesian"))
+            out.count(key=("rt", src, dst, k, a, e, nu), kind=f"roundtrip-{conic}", pair=f"{src[:9]}>{dst[:9]}")
+            if not (np.all(np.isfinite(cb)) and np.linalg.norm(cb[:3] - truth[:3]) <= 1e-6 * rs and np.linalg.norm(cb[3:] - truth[3:]) <= 1e-6 * vs):
+                fam = f"roundtrip-{src}-{dst}-{conic}"
+                if hyper and not np.all(np.isfinite(cb)) and abs(start_value(e, d["M"])) > 709.0:
+                    fam = "m2e-hyperbolic-start-overflow"
+                elif hyper and "keplerian_mean_circular" in (src, dst):
+                    fam = "mean-circular-hyperbolic-M-mod-2pi"
+                out.fail(fam, f"{src} -> {dst} -> {src} does not return the same position and velocity",
+                         dict(inp, cartesian=[float(x) for x in truth], src=src, dst=dst), observed=[float(x) for x in cb], expected=[float(x) for x in truth])
+    # 3. Infos: defining relations
+    inf = cart.infos
+    vn = vs
+    h = np.linalg.norm(np.cross(truth[:3], truth[3:]))
+    energy = vn * vn / 2 - mu / rs
+    checks = [("v", inf.v, vn, vn), ("energy", inf.energy, energy, abs(energy)), ("r", inf.r, rs, rs),
+              ("pericenter", inf.pericenter, a * (1 - e), abs(a)), ("rp", inf.rp, a * (1 - e), abs(a)),
+              ("vp", inf.vp, h / (a * (1 - e)), vn), ("n", inf.n, math.sqrt(mu / abs(a) ** 3), math.sqrt(mu / abs(a) ** 3)),
+              ("cos_fpa", inf.cos_fpa, h / (rs * vn), 1.0), ("sin_fpa", inf.sin_fpa, float(np.dot(truth[:3], truth[3:])) / (rs * vn), 1.0),
+              ("fpa", inf.fpa, math.atan2(float(np.dot(truth[:3], truth[3:])), h), 1.0),
+              ("cos2+sin2", inf.cos_fpa ** 2 + inf.sin_fpa ** 2, 1.0, 1.0),
+              ("zp", inf.zp, a * (1 - e) - fr.center.body.equatorial_radius, abs(a))]
+    if hyper:
+        checks += [("vinf", inf.vinf, math.sqrt(2 * energy), vn), ("dinf", inf.dinf, h / math.sqrt(2 * energy), abs(a) * e),
+                   ("type", float(inf.type == "hyperbolic"), 1.0, 1.0)]
+        for nm in ("period", "apocenter", "va"):
+            try:
+                getattr(inf, nm)
+                out.fail("infos-" + nm + "-hyperbolic", f"infos.{nm} of a hyperbolic orbit does not raise", inp)
+            except ValueError:
+                pass
+    else:
+        checks += [("period", inf.period.total_seconds(), TWO_PI * math.sqrt(a ** 3 / mu), TWO_PI * math.sqrt(a ** 3 / mu)),
+                   ("apocenter", inf.apocenter, a * (1 + e), a), ("ra", inf.ra, a * (1 + e), a), ("va", inf.va, h / (a * (1 + e)), vn),
+                   ("za", inf.za, a * (1 + e) - fr.center.body.equatorial_radius, a), ("type", float(inf.type == "elliptic"), 1.0, 1.0)]
+    for nm, got, exp, sc in checks:
+        out.count(key=("infos", nm, k, a, e, nu), kind="infos", conic=conic)
+        if not (math.isfinite(float(got)) and abs(float(got) - exp) <= 1e-6 * sc + (1e-6 if nm == "period" else 0.0)):
+            out.fail(f"infos-{nm}-{conic}", f"infos.{nm} violates its defining relation", dict(inp, cartesian=[float(x) for x in truth]),
+                     observed=float(got), expected=float(exp))
+
+
 def oracle(ctx, widened):
     import numpy as np
     out = Outcome()
@@ -227,110 +375,8 @@ def oracle(ctx, widened):
     N = 400 if big else 40
     for _ in range(N):
         k, hyper, a, e, i, Om, om = gen_elements(rng)
-        fr = frs[k]
-        mu = fr.center.body.mu
         M, EH = gen_anomaly(rng, hyper, e)
-        nu = nu_from_anomaly(hyper, e, EH)
-        truth = truth_cartesian(mu, a, e, i, Om, om, nu)
-        rs, vs = np.linalg.norm(truth[:3]), np.linalg.norm(truth[3:])
-        inp = {"body": fr.center.body.name, "a": a, "e": e, "i": i, "Omega": Om, "omega": om, "M": M, "E_or_H": EH}
-        conic = "hyp" if hyper else "ell"
-        # 0. the mean-anomaly state, converted to cartesian by the code, is the independently constructed state
-        s0 = StateVector([a, e, i, Om, om, M], date, "keplerian_mean", fr)
-        with np.errstate(all="ignore"):
-            c0 = arr(s0.copy(form="cartesian"))
-        out.count(key=("m2cart", k, a, e, M), kind="mean->cartesian-vs-textbook", conic=conic, m2e=branch(e, M))
-        if not np.all(np.isfinite(c0)):
-            fam = "m2e-hyperbolic-start-overflow" if (hyper and abs(start_value(e, M)) > 709.0) else f"non-finite-mean-to-cartesian-{conic}"
-            out.fail(fam, "keplerian_mean -> cartesian returns a non-finite state inside the property's domain (M2E start value overflows sinh/cosh)",
-                     inp, observed=[float(x) for x in c0], expected=[float(x) for x in truth], start_value=start_value(e, M) if hyper else None)
-            # continue from the true-anomaly state so that the remaining checks still run on this orbit
-            s0 = StateVector([a, e, i, Om, om, nu], date, "keplerian", fr)
-            c0 = arr(s0.copy(form="cartesian"))
-        if not (np.linalg.norm(c0[:3] - truth[:3]) <= 1e-6 * rs and np.linalg.norm(c0[3:] - truth[3:]) <= 1e-6 * vs):
-            out.fail(f"mean-to-cartesian-{conic}-{branch(e, M)}", "keplerian_mean -> cartesian differs from the textbook perifocal construction",
-                     inp, observed=[float(x) for x in c0], expected=[float(x) for x in truth])
-            continue
-        cart = StateVector(truth, date, "cartesian", fr)
-        # 1. definition truth: every form's six numbers from the cartesian state
-        d = textbook(mu, truth)
-        d["z"], d["vz"] = truth[2], truth[5]
-        for form in FORMS[1:]:
-            if not defined_for(form, hyper):
-                continue
-            with np.errstate(all="ignore"):
-                got = arr(cart.copy(form=form))
-            ks = expected_form(form, d, hyper)
-            out.count(key=("def", form, k, a, e, nu), kind="definition-" + form, conic=conic)
-            for idx, kname in enumerate(ks):
-                exp = d[kname]
-                g = float(got[idx])
-                base = kname.split("_")[0]
-                if kname in ANG:
-                    if kname in ("E", "M") and hyper:
-                        ok = abs(g - exp) <= 1e-6 * max(1.0, abs(exp))
-                    else:
-                        ok = angdiff(g, exp) <= 2e-6 / (e if kname in ("ω", "ν", "E", "M") and e < 1e-2 else 1.0) / (math.sin(i) if kname in ("Ω", "ω", "u", "α") and math.sin(i) < 0.1 else 1.0)
-                elif kname.endswith("_dot"):
-                    sc = {"r_dot": vs, "rho_dot": vs, "θ_dot": vs / d["rho"], "φ_dot": vs / d["rho"]}[kname]
-                    ok = abs(g - exp) <= 2e-5 * sc
-                else:
-                    sc = {"a": abs(a), "r": rs, "rho": rs, "z": rs, "vz": vs, "n": d.get("n", 1.0)}.get(kname, 1.0)
-                    ok = abs(g - exp) <= 1e-6 * sc * (1.0 / math.sin(i) if kname in ("ix", "iy") else 1.0) * (1 + abs(exp) if kname in ("ix", "iy") else 1.0)
-                if not (ok and math.isfinite(g)):
-                    out.fail(f"definition-{form}-{kname}-{conic}", f"{form}[{idx}] is not the textbook value of {kname} computed from the cartesian state",
-                             dict(inp, cartesian=[float(x) for x in truth]), observed=g, expected=float(exp))
-        # 2. round trips over all ordered pairs
-        for src in FORMS:
-            if not defined_for(src, hyper):
-                continue
-            with np.errstate(all="ignore"):
-                sx = cart.copy(form=src)
-            for dst in FORMS:
-                if dst == src or not defined_for(dst, hyper):
-                    continue
-                with np.errstate(all="ignore"):
-                    back = sx.copy(form=dst).copy(form=src)
-                    cb = arr(back.copy(form="cartesian"))
-                out.count(key=("rt", src, dst, k, a, e, nu), kind=f"roundtrip-{conic}", pair=f"{src[:9]}>{dst[:9]}")
-                if not (np.all(np.isfinite(cb)) and np.linalg.norm(cb[:3] - truth[:3]) <= 1e-6 * rs and np.linalg.norm(cb[3:] - truth[3:]) <= 1e-6 * vs):
-                    fam = f"roundtrip-{src}-{dst}-{conic}"
-                    if hyper and not np.all(np.isfinite(cb)) and abs(start_value(e, d["M"])) > 709.0:
-                        fam = "m2e-hyperbolic-start-overflow"
-                    elif hyper and "keplerian_mean_circular" in (src, dst):
-                        fam = "mean-circular-hyperbolic-M-mod-2pi"
-                    out.fail(fam, f"{src} -> {dst} -> {src} does not return the same position and velocity",
-                             dict(inp, cartesian=[float(x) for x in truth], src=src, dst=dst), observed=[float(x) for x in cb], expected=[float(x) for x in truth])
-        # 3. Infos: defining relations
-        inf = cart.infos
-        vn = vs
-        h = np.linalg.norm(np.cross(truth[:3], truth[3:]))
-        energy = vn * vn / 2 - mu / rs
-        checks = [("v", inf.v, vn, vn), ("energy", inf.energy, energy, abs(energy)), ("r", inf.r, rs, rs),
-                  ("pericenter", inf.pericenter, a * (1 - e), abs(a)), ("rp", inf.rp, a * (1 - e), abs(a)),
-                  ("vp", inf.vp, h / (a * (1 - e)), vn), ("n", inf.n, math.sqrt(mu / abs(a) ** 3), math.sqrt(mu / abs(a) ** 3)),
-                  ("cos_fpa", inf.cos_fpa, h / (rs * vn), 1.0), ("sin_fpa", inf.sin_fpa, float(np.dot(truth[:3], truth[3:])) / (rs * vn), 1.0),
-                  ("fpa", inf.fpa, math.atan2(float(np.dot(truth[:3], truth[3:])), h), 1.0),
-                  ("cos2+sin2", inf.cos_fpa ** 2 + inf.sin_fpa ** 2, 1.0, 1.0),
-                  ("zp", inf.zp, a * (1 - e) - fr.center.body.equatorial_radius, abs(a))]
-        if hyper:
-            checks += [("vinf", inf.vinf, math.sqrt(2 * energy), vn), ("dinf", inf.dinf, h / math.sqrt(2 * energy), abs(a) * e),
-                       ("type", float(inf.type == "hyperbolic"), 1.0, 1.0)]
-            for nm in ("period", "apocenter", "va"):
-                try:
-                    getattr(inf, nm)
-                    out.fail("infos-" + nm + "-hyperbolic", f"infos.{nm} of a hyperbolic orbit does not raise", inp)
-                except ValueError:
-                    pass
-        else:
-            checks += [("period", inf.period.total_seconds(), TWO_PI * math.sqrt(a ** 3 / mu), TWO_PI * math.sqrt(a ** 3 / mu)),
-                       ("apocenter", inf.apocenter, a * (1 + e), a), ("ra", inf.ra, a * (1 + e), a), ("va", inf.va, h / (a * (1 + e)), vn),
-                       ("za", inf.za, a * (1 + e) - fr.center.body.equatorial_radius, a), ("type", float(inf.type == "elliptic"), 1.0, 1.0)]
-        for nm, got, exp, sc in checks:
-            out.count(key=("infos", nm, k, a, e, nu), kind="infos", conic=conic)
-            if not (math.isfinite(float(got)) and abs(float(got) - exp) <= 1e-6 * sc + (1e-6 if nm == "period" else 0.0)):
-                out.fail(f"infos-{nm}-{conic}", f"infos.{nm} violates its defining relation", dict(inp, cartesian=[float(x) for x in truth]),
-                         observed=float(got), expected=float(exp))
+        orbit_checks(out, frs[k], k, hyper, a, e, i, Om, om, M, EH)
     # 4. Kepler equation through the public helper, all start branches, incl. the overflow region named by lead 18
     for _ in range(2000 if big else 300):
         hyper = rng.random() < 0.5
@@ -728,3 +774,28 @@ def correspondence(ctx):
         cmp_vec(out, kind, kind, inp, real, model, form, scales, hyper, cond)
         out.sample({"request": req[:100] + "…", "impl": real, "model": model}, limit=3)
     return out
+
+
+def replay(f):
+    """re-run the recorded failing input on the real API"""
+    import numpy as np
+    out = Outcome()
+    fail = f.get("failure", f)
+    inp = fail.get("input", {})
+    from beyond.orbits.forms import Form
+    if "e" in inp and "M" in inp and "a" not in inp:
+        with np.errstate(all="ignore"):
+            got = float(Form.M2E(inp["e"], inp["M"]))
+        res = inp["e"] * math.sinh(got) - got - inp["M"] if inp["e"] >= 1 else got - inp["e"] * math.sin(got) - inp["M"]
+        out.count(key="replay")
+        if not (math.isfinite(got) and abs(res) <= 1e-6 * max(1.0, abs(inp["M"]))):
+            out.fail(fail["family"], fail["what"], inp, observed=got, expected=fail.get("expected"))
+        return out
+    if "a" in inp and "Omega" in inp:
+        frs = frames()
+        k = [b.name for b in bodies()].index(inp["body"])
+        orbit_checks(out, frs[k], k, inp["e"] >= 1, inp["a"], inp["e"], inp["i"], inp["Omega"], inp["omega"], inp["M"], inp["E_or_H"])
+        out.failures = [x for x in out.failures if x["family"] == fail["family"]]
+        return out
+    ctx = core.Ctx(ID, "quick", 0)
+    return oracle(ctx, False)
